@@ -195,6 +195,213 @@ def shocks(ctx):
               'that belongs to a different jump')
 
 
+def shock_placement(ctx):
+    """R19.2b  The shock ray is drawn where the computed jump is a shock: the theta-beta-M relation relates the TURNING
+    of the flow (slip-line direction minus the direction of the incoming flow of that side) to the shock angle measured
+    from the incoming flow direction.  So the equation determine_shock_angle(state) solves must have tan(slip-line
+    direction - flow direction of `state`) on its right-hand side, and the polar angle it returns must be the flow
+    direction of `state` plus the root.  With the absolute slip-line angle instead, the ray is misplaced whenever that
+    side's inflow is inclined, and mass / tangential momentum are not conserved across the returned discontinuity.
+    Also: each caller passes the incoming state of the side whose shock it places."""
+    mfun = ctx.method('determine_shock_angle')
+    inner = None
+    for st in ast.walk(mfun.node):
+        if isinstance(st, ast.FunctionDef) and st is not mfun.node:
+            inner = st
+    if inner is None:
+        raise AnalysisError('determine_shock_angle no longer defines its theta-beta-M function')
+    b = Builder(ctx.model)
+    b.frame = Frame(None, ctx.mod, {}, None)
+    cd = b.mk('param', 'cd')
+    inst = b.symbolic_obj(ctx.ci, [], {'deflection_angle_solution': cd})
+    p0, r0, M0, th, g = (b.mk('param', nm) for nm in ('p0', 'r0', 'M0', 'theta0_deg', 'g'))
+    state = b.mk('tuple', args=[p0, r0, M0, th, g])
+    b, inst, out, m = run_method(ctx, 'determine_shock_angle', [state], b, inst)
+    solves = [n for n in walk(out) if n.kind == 'call' and str(n.val).endswith('fsolve') and n.args and n.args[0].kind == 'closure']
+    if len(solves) != 1:
+        raise AnalysisError('determine_shock_angle: expected one fsolve of a function of the shock angle, found %d' % len(solves))
+    sv = solves[0]
+    beta = b.mk('param', 'beta')
+    b.frame = Frame(None, ctx.mod, {}, None)
+    lam = b.call_closure(sv.args[0].val, [beta], {}, None)
+    fr = Frame(mfun, ctx.mod, {'M': M0, 'g': g}, None)
+    tbm = b.call_closure(Closure(None, inner, fr, module=ctx.mod), [beta], {}, inner)
+    ev = NFEval(['g'])
+    # theta0 in radians, written the way the module writes it (theta_deg / 180 * pi)
+    setm = ctx.method('set_initial_state_values')
+    pin = None
+    for n in ast.walk(setm.node):
+        if isinstance(n, ast.Name) and n.id == 'pi':
+            pin = n
+    if pin is None:
+        raise AnalysisError('set_initial_state_values no longer converts degrees with pi')
+    b.frame = Frame(None, ctx.mod, {}, None)
+    pinode = b.lookup('pi', pin)
+    th_rad = b.mk('binop', '*', [b.mk('binop', '/', [th, b.const(180.)]), pinode])
+    turning = b.mk('binop', '-', [cd, th_rad])
+    want = b.mk('binop', '-', [tbm, b.mk('call', 'numpy.tan', [turning])])
+    nl, nw = ev.nf(lam), ev.nf(want)
+    ok = not (nl is NAN or nw is NAN or isinstance(nl, (PW, Struct)) or isinstance(nw, (PW, Struct)))
+    same = ok and ev.is_zero(ev.add(nl, nw, -1))
+    opp = ok and ev.is_zero(ev.add(nl, nw))
+    ctx.check(mfun, 'shock angle: the relation is solved for the turning of the flow (slip line - incoming direction)', same or opp,
+              "determine_shock_angle: the equation solved for the shock angle is `%s`; its right-hand side is not the tangent of "
+              "the turning angle of the flow across the shock, i.e. the slip-line direction minus the direction of the incoming flow "
+              "of the state passed (theta0 = state[3] in degrees).  The theta-beta-M relation holds between the turning angle and the "
+              "shock angle measured from the incoming flow; with another angle the shock ray is misplaced whenever that side's inflow "
+              "is inclined to the x axis, and the jump across the returned discontinuity conserves neither mass nor tangential momentum"
+              % (ev.nf(lam).key()[-120:] if ok else '?'), at=mfun.node)
+    root = b.mk('sub', args=[sv, b.const(0)])
+    wantret = b.mk('binop', '+', [th_rad, root])
+    no, nr = ev.nf(out), ev.nf(wantret)
+    okr = not (no is NAN or nr is NAN or isinstance(no, (PW, Struct)) or isinstance(nr, (PW, Struct))) and ev.is_zero(ev.add(no, nr, -1))
+    ctx.check(mfun, 'shock angle: returned polar angle = incoming flow direction + root', okr,
+              "determine_shock_angle: the polar angle returned is not the direction of the incoming flow of the state passed plus "
+              "the shock angle found (the root is measured from the incoming flow direction; the region tests compare it with polar "
+              "angles from the x axis)", at=mfun.node)
+    # callers: the state of the side whose shock is placed
+    setm = ctx.method('set_starstate_values')
+    bb = Builder(ctx.model)
+    bb.frame = Frame(None, ctx.mod, {}, None)
+    pre = {'bottom_state': bb.mk('param', 'bottom_state'), 'top_state': bb.mk('param', 'top_state'),
+           'morphology': bb.mk('param', 'morphology')}
+    inst2 = bb.symbolic_obj(ctx.ci, ['thetaB_rad', 'gB', 'thetaT_rad', 'gT', 'pressure_solution', 'deflection_angle_solution',
+                                     'muB_rad', 'muT_rad'], pre)
+    bb.frame = Frame(None, ctx.mod, {}, None)
+    bb.call_closure(Closure(setm, setm.node, None, self_node=inst2, cls=ctx.ci, module=ctx.mod), [], {}, setm.node)
+    calls = [(at, args) for (at, callee, args, caller) in bb.call_log if callee is mfun]
+    if len(calls) < 2:
+        raise AnalysisError('set_starstate_values: %d calls of determine_shock_angle (confirmed: 2)' % len(calls))
+    for at, args in calls:
+        # which entry of `angles` the value is stored under
+        keyname = None
+        for st in ast.walk(setm.node):
+            if isinstance(st, ast.Assign) and st.value is at and isinstance(st.targets[0], ast.Subscript) \
+                    and isinstance(st.targets[0].slice, ast.Constant):
+                keyname = st.targets[0].slice.value
+        if keyname is None or keyname[0] not in 'BT':
+            raise AnalysisError('set_starstate_values: cannot tell which shock `%s` places' % src_of(at))
+        side = 'bottom_state' if keyname[0] == 'B' else 'top_state'
+        a = args[-1]
+        ctx.check(setm, "shock '%s' is placed from the incoming state of its own side" % keyname,
+                  a.kind == 'param' and a.val == side,
+                  "set_starstate_values: the %s shock angle angles['%s'] is computed from `%s`, not from the incoming state of that "
+                  "side: the ray belongs to the other side's Mach number and flow direction"
+                  % ('bottom' if side[0] == 'b' else 'top', keyname, src_of(at.args[0]) if at.args else '?'), at=at)
+
+
+def _sides(n, memo=None):
+    """Sides (B / T) of the incoming-state parameters a value is computed from.  Unpacking
+    `a, b = array([x, y]) / 180. * pi` is followed element by element."""
+    out, seen, st = set(), set(), [n]
+    while st:
+        x = st.pop()
+        if x is None or x.nid in seen:
+            continue
+        seen.add(x.nid)
+        if x.kind == 'param' and isinstance(x.val, str) and x.val[:2] in ('B:', 'T:'):
+            out.add(x.val[0])
+            continue
+        if x.kind == 'closure':
+            continue
+        if x.kind == 'sub' and len(x.args) == 2 and x.args[1].kind == 'const' and isinstance(x.args[1].val, int):
+            e = _element(x.args[0], x.args[1].val)
+            if e is not None:
+                st.extend(e)
+                continue
+        st.extend(a for a in x.args if a is not None)
+        st.extend(x.kw.values())
+    return out
+
+
+def _element(n, i, depth=0):
+    """Nodes element i of an array-valued expression depends on (None: unknown shape)."""
+    if depth > 8:
+        return None
+    if n.kind in ('tuple', 'list'):
+        return [n.args[i]] if -len(n.args) <= i < len(n.args) else None
+    if n.kind == 'call' and n.val in ('numpy.array', 'numpy.asarray') and n.args:
+        return _element(n.args[0], i, depth + 1)
+    if n.kind == 'binop' and len(n.args) == 2:
+        parts = []
+        hit = False
+        for a in n.args:
+            e = _element(a, i, depth + 1)
+            if e is None:
+                parts.append(a)
+            else:
+                hit = True
+                parts.extend(e)
+        return parts if hit else None
+    return None
+
+
+def overlap_sides(ctx):
+    """R19.5  The star state is the intersection of two pressure-deflection curves, one per incoming state.  Each curve
+    is a table (deflection, pressure) handed to numpy.interp: whenever the tabulated VALUES come from one side only, the
+    abscissae of the same table must come from that side only -- in particular the flow direction the deflections are
+    added to must be that side's own.  A curve offset by the other side's flow direction moves the guess of the star
+    pressure, the guess selects shock or fan for each side, and for colliding streams a wave that compresses is then
+    computed with the fan relations (not a shock) or vice versa.  Decided on the value graph of the constructor with the
+    two incoming states as tagged symbols."""
+    b = Builder(ctx.model)
+    b.frame = Frame(None, ctx.mod, {}, None)
+    bs = b.mk('tuple', args=[b.mk('param', 'B:' + k) for k in ('p', 'r', 'M', 'theta_deg', 'g')])
+    ts = b.mk('tuple', args=[b.mk('param', 'T:' + k) for k in ('p', 'r', 'M', 'theta_deg', 'g')])
+    inst = b.instantiate(ctx.ci, args=[bs, ts])
+    h = b.heap[inst.val.oid]
+    for k in ('pressure_solution', 'deflection_angle_solution'):
+        if k not in h:
+            raise AnalysisError('SetupRiemannProblem no longer stores %s' % k)
+    fo = ctx.method('find_overlap')
+    tables = []
+    seen = set()
+    for root in (h['pressure_solution'], h['deflection_angle_solution']):
+        for n in walk(root):
+            if n.kind == 'call' and n.val == 'numpy.interp' and len(n.args) == 3 and n.nid not in seen:
+                seen.add(n.nid)
+                tables.append(n)
+    single = [(n, _sides(n.args[2])) for n in tables]
+    single = [(n, s) for n, s in single if len(s) == 1]
+    if len(single) < 2:
+        raise AnalysisError('find_overlap: %d one-sided pressure-deflection tables found (confirmed: 2)' % len(single))
+    for n, s in single:
+        side = next(iter(s))
+        xs = _sides(n.args[1])
+        at = n.origin[1] if n.origin else None
+        ctx.check(fo, 'pressure-deflection table of the %s state uses only that state' % ('bottom' if side == 'B' else 'top'),
+                  xs == s,
+                  "find_overlap: the table `%s` interpolates %s-state pressures over deflection angles that are computed from %s: "
+                  "the %s curve is offset by the other side's flow direction, so for incoming streams with different directions "
+                  "the guessed star pressure -- which decides whether each wave is treated as a shock or as a fan -- is wrong, and a "
+                  "wave that compresses can be computed with the Prandtl-Meyer relations (or a fan with the shock relations)"
+                  % (src_of(at)[:80] if at is not None else 'interp(...)', 'bottom' if side == 'B' else 'top',
+                     ' and '.join({'B': 'the bottom state', 'T': 'the top state'}[k] for k in sorted(xs)) or 'neither state',
+                     'bottom' if side == 'B' else 'top'), at=at)
+    # the closures the final solve uses: each side's function from that side only
+    dsf = ctx.method('determine_state_functions')
+    lambdas = [x for x in ast.walk(dsf.node) if isinstance(x, ast.Lambda)]
+    n_l = 0
+    for lam in lambdas:
+        # owner: the name the lambda is assigned to
+        owner = None
+        for st in ast.walk(dsf.node):
+            if isinstance(st, ast.Assign) and st.value is lam and isinstance(st.targets[0], ast.Name):
+                owner = st.targets[0].id
+        if owner is None or owner.split('_')[0] not in ('bottom', 'top'):
+            continue
+        want = owner.split('_')[0]
+        names = {x.id for x in ast.walk(lam.body) if isinstance(x, ast.Name)}
+        other = 'top' if want == 'bottom' else 'bottom'
+        bad = sorted(nm for nm in names if nm.startswith(other + '_'))
+        n_l += 1
+        ctx.check(dsf, '%s (%s) uses only the %s state' % (owner, src_of(lam)[:50], want), not bad,
+                  "determine_state_functions: `%s = %s` reads %s: the %s pressure-deflection function mixes the two incoming states"
+                  % (owner, src_of(lam)[:80], ', '.join(bad), want), at=lam)
+    if n_l < 4:
+        raise AnalysisError('determine_state_functions: %d side functions found (confirmed: 4)' % n_l)
+
+
 def expansions(ctx):
     b = Builder(ctx.model)
     b.frame = Frame(None, ctx.mod, {}, None)
@@ -506,6 +713,8 @@ def run(model, tier):
     res.trusted_base = ['CPython ast', 'sympy factor_list / expand', 'value-graph builder']
     ctx = Ctx(model, res)
     shocks(ctx)
+    shock_placement(ctx)
+    overlap_sides(ctx)
     expansions(ctx)
     consistency(ctx)
     fans(ctx)
